@@ -77,7 +77,18 @@ def compare_lines(impl, model, mode, rtol=1e-9, atol_rel=1e-12):
     if impl == model:
         return True
     if mode == "exact":
-        return False
+        # bit-exact, except that two NaNs are the same answer whatever their sign/payload
+        ti, tm = impl.split(), model.split()
+        if len(ti) != len(tm):
+            return False
+        for a, b in zip(ti, tm):
+            if a != b:
+                if not (is_float_tok(a) and is_float_tok(b)):
+                    return False
+                fa, fb = f_of_hex(a), f_of_hex(b)
+                if not (math.isnan(fa) and math.isnan(fb)):
+                    return False
+        return True
     ti, tm = impl.split(), model.split()
     if len(ti) != len(tm):
         return False
@@ -212,8 +223,8 @@ def run_lines(lines, scratch, tag="_r"):
         for l in lines:
             f.write(l + "\n")
     ip, mp, ri, rm = run_both(ops, scratch, tag)
-    il = open(ip).read().splitlines()
-    ml = open(mp).read().splitlines()
+    il = [" ".join(l.split()) for l in open(ip).read().splitlines()]
+    ml = [" ".join(l.split()) for l in open(mp).read().splitlines()]
     return il, ml, ri, rm
 
 
@@ -365,7 +376,7 @@ def check(prop, tier, seed):
                         mismatches.append((n, op.rstrip("\n"), il.rstrip("\n") or "<no answer: process ended>",
                                            ml.rstrip("\n") or "<no answer: process ended>"))
                         break
-                    il = il.rstrip("\n"); ml = ml.rstrip("\n")
+                    il = " ".join(il.split()); ml = " ".join(ml.split())
                     toks = op.split()
                     if not toks:
                         continue
